@@ -74,7 +74,7 @@ TEXT = {
     "C18": ("model_checking", "Sequential query histories are explored exhaustively to a depth on the real structures with the memory they own "
             "under observation (one reachable state, history-independent answers), and all interleavings of small query batches are "
             "explored with a controlled scheduler; Send/Sync is a compile-time obligation.", "§4 C18",
-            "explicit-state exploration of query histories + exhaustive schedule exploration (shuttle DFS) on the real code; compile-time auto-trait assertions"),
+            "explicit-state exploration of query histories + exhaustive schedule exploration (shuttle DFS at query granularity, trap-flag/fork preemption points at instruction granularity) on the real code; compile-time auto-trait assertions"),
 }
 
 NOTE = {
@@ -87,7 +87,7 @@ NOTE = {
     "C15": "Trusted: counting allocator; H0 computed by the harness; table allowance 10*(m+1)+40*distinct+4096 bytes.",
     "C16": "Trusted: counting allocator. Tolerance 2% + 256 bytes per component + 512 (the property's 'few percent plus a constant per component').",
     "C17": "Trusted: naive bit-scan / stable-sort references. Not all 2^64 (2^128) words are enumerated; see evidence.coverage.bounds for what is exhaustive.",
-    "C18": "Trusted: shuttle's DFS scheduler, the arena allocator. Preemption inside a query is not scheduled; it is covered by the observation that no query writes to the structure's memory (arena digest), otherwise only by the free-running pass.",
+    "C18": "Trusted: shuttle's DFS scheduler, the arena allocator, the trap-flag/fork preemption explorer (sequentially consistent interleavings, one preemption, point cap). For subjects whose queries never write to the memory they own (arena digest) finer interleavings are covered by commutation of read-only steps.",
     "C09": "Trusted: the explorer's digest; rank itself is validated by C01/C02. Prefetch intrinsics have no architectural effect, so only panics, faults and answer changes are observable. Known finding KF2 does not arise below 17 levels.",
     "C10": "Trusted: the reference model decides which arguments satisfy the precondition. Known finding KF1 (BitVectorMut::get_bits None at index+len==len while get_bits_unchecked answers).",
     "C11": "Trusted: bincode; PartialEq of the types (also exercised by C19).",
